@@ -231,10 +231,30 @@ def gen_strings(max_len, rhs_len, lhs_len):
     return gen
 
 
+# -- token-level enumeration around reserved words ------------------------------------------------------------
+
+KW_TOKENS = ['Y', 'is', 'not', 'if', '[', ']', '1', '=', ',', '.', '(', ')', ' ']
+
+
+def gen_keyword_tokens(max_tokens, frame_tokens):
+    """Every sequence of up to `max_tokens` tokens over an alphabet with reserved words, and every left-hand side of
+    up to `frame_tokens` tokens in the frame '<w>=1' (a keyword next to a genuine variable needs >= 5 tokens there)."""
+    def gen():
+        for n in range(1, max_tokens + 1):
+            for toks in itertools.product(KW_TOKENS, repeat=n):
+                yield {'s': ''.join(toks)}
+        lhs = [t for t in KW_TOKENS if t not in ('=', ' ')]
+        for n in range(1, frame_tokens + 1):
+            for toks in itertools.product(lhs, repeat=n):
+                yield {'s': ''.join(toks) + '=1'}
+    return gen
+
+
 # -- mutation fuzzing of valid scripts -----------------------------------------------------
 
 TOKEN = re.compile(r"[A-Za-z_][A-Za-z_0-9.]*|\d+\.?\d*|\.\d+|\*\*|[<>=!]=|```|\s+|.", re.S)
-INSERTS = ['(', ')', '[', ']', '{', '}', '<', '>', '`', '```', "'", '"', '=', '\n', '#', ',', '\\', ' ', '\n```\n', ':', '@']
+INSERTS = ['(', ')', '[', ']', '{', '}', '<', '>', '`', '```', "'", '"', '=', '\n', '#', ',', '\\', ' ', '\n```\n', ':', '@',
+           'is', 'not[1]', 'if[0]', ',in[-1]', '.', 'lambda', 'None', ';', '\t']
 
 
 def mutate(text, muts):
@@ -406,6 +426,7 @@ def phases(tier):
                        note='two libFuzzer campaigns (empty corpus / valid scripts); every recorded input is re-judged here')]
     return extra + [
         Phase('strings', check_string, gen=gen_strings(3, 3, 3) if quick else gen_strings(4, 4, 4), exhaustive=True),
+        Phase('keyword-token-strings', check_string, gen=gen_keyword_tokens(4, 5) if quick else gen_keyword_tokens(5, 6), exhaustive=True),
         Phase('mutated-scripts', check_mutant, strategy=strat_mutants, examples=4000 if quick else 120000),
         Phase('valid-and-canary-scripts', check_valid, strategy=strat_valid, examples=1500 if quick else 30000),
     ]
